@@ -6,11 +6,11 @@ replace github.com/sboehler/knut => /repo
 
 require (
 	github.com/sboehler/knut v0.0.0-00010101000000-000000000000
+	github.com/shopspring/decimal v1.3.1
 	pgregory.net/rapid v1.3.0
 )
 
 require (
-	github.com/shopspring/decimal v1.3.1 // indirect
 	github.com/sourcegraph/conc v0.3.0 // indirect
 	golang.org/x/exp v0.0.0-20230817173708-d852ddb80c63 // indirect
 	golang.org/x/sync v0.3.0 // indirect
